@@ -55,6 +55,8 @@ def run(ck, facts):
     ck.rule("R4", "disable is honoured: disabled methods are skipped during lowering; every backend loop over types/traits tests `disable` before generating")
     ck.rule("R5", "the proc macro never consults backend-conditional attributes (the Rust library exports the function regardless)")
     ck.rule("R6", "inheritance: disable inherits everywhere except to variants; every type lowerer takes the type-parent attrs, every method list the method-parent attrs")
+    ck.rule("R7", "attribute evaluation of one item is independent of its siblings: inherited-attribute accumulators (ast::Attrs) and the `auto` flag are "
+                  "re-created per item (never loop-carried), and nothing happens for a method before its `disable` test except attribute evaluation")
     ck.not_decided += ["byte-identity of other backends' output (behaviour; follows from R1-R4 and C14)"]
 
     # ---------------- R1
@@ -353,3 +355,78 @@ def run(ck, facts):
                     par = C.strip(n["a"][2])
                     mp.append(par.get("n") if par.get("k") == "field" else par.get("k"))
             ck.expect(mp == ["method_parent_attrs"], "R6", fname + "/method-parent", str(mp), "%s passes %s as the methods' parent attributes" % (fname, mp), C.loc(f))
+
+    # ---------------- R7 sibling independence (no attribute state carried from one item to the next)
+    AST_ATTRS = "ast::attrs::Attrs"
+    n7 = 0
+    for unit in (core, mac, tool):
+        for f in unit.fn_list:
+            if "hir" not in f or f.get("dk") == "Closure":
+                continue
+            if (f.get("impl_self") or "").endswith(AST_ATTRS):
+                continue  # the accumulator's own methods iterate over ONE item's attribute list
+            body = C.fn_body(f)
+            loops = C.enclosing_loops(body)
+            if not loops:
+                continue
+            ltypes = {}
+            for x in C.walk(body):
+                if x.get("k") in ("letst", "let") and isinstance(x.get("pat"), dict) and x["pat"].get("k") == "bind":
+                    ltypes[x["pat"].get("id")] = x.get("ty") or ""
+            fkey = C.norm_path(f["path"]).split("::", 1)[1]
+            for lp in loops:
+                inner = C.bound_inside(lp)
+                for r, path, kind, node in C.mutations(C.loop_body(lp)):
+                    if r is None:
+                        continue
+                    is_attr = False
+                    if kind.startswith("mcall:"):
+                        is_attr = (node.get("rty") or "").replace("&mut ", "").strip().endswith(AST_ATTRS) and not path
+                    elif kind in ("assign", "assignop"):
+                        lhs = list(C.children(node))[0]
+                        is_attr = any(y.get("k") == "field" and (y.get("bty") or "").replace("&mut ", "").replace("&", "").strip().endswith(AST_ATTRS) for y in C.walk(lhs))
+                    elif kind == "&mut":
+                        is_attr = not path and (ltypes.get(r.get("id")) or "").endswith(AST_ATTRS)
+                    if not is_attr:
+                        continue
+                    n7 += 1
+                    key = "%s/%s(%s)" % (fkey, r.get("n"), kind)
+                    ck.expect(r.get("id") in inner, "R7", key, "accumulator is created inside the loop (fresh per item)",
+                              "`%s` (ast::Attrs) is declared outside the loop over sibling items and mutated inside it by %s: attributes of one "
+                              "item (e.g. a conditional disable/rename on one impl block) leak onto every later item" % (r.get("n"), kind), C.loc(f, node.get("ln")))
+                # the `auto` flag handed to satisfies_cfg
+                for x in C.walk(C.loop_body(lp)):
+                    if x.get("k") == "mcall" and x.get("m") == "satisfies_cfg":
+                        for a in x.get("a", []):
+                            for y in C.walk(a):
+                                if y.get("k") == "addr" and str(y.get("mut")) == "True":
+                                    r, path = C.place_root(list(C.children(y))[0])
+                                    if r is None:
+                                        continue
+                                    n7 += 1
+                                    ck.expect(r.get("id") in inner, "R7", "%s/satisfies_cfg(&mut %s)" % (fkey, r.get("n")), "flag is fresh per attribute",
+                                              "the `auto` flag `%s` passed to satisfies_cfg is declared outside the loop over attributes: once one attribute is gated on "
+                                              "`auto`, every later attribute of the item is treated as auto-gated" % r.get("n"), C.loc(f, x.get("ln")))
+    if n7 < 2:
+        ck.bad("R7", "floor", "only %d attribute-accumulator / auto-flag sites found in loops (2 counted: Module::from_syn impl_attrs, Attrs::from_ast auto_found)" % n7)
+    # nothing but attribute evaluation happens for a method before its disable test
+    for n in C.walk(C.fn_body(lam)):
+        if n.get("k") != "for":
+            continue
+        items = block_items(n["body"])
+        idx_if = next((i for i, x in enumerate(items) if C.strip(x).get("k") == "if" and any(y.get("k") == "field" and y.get("n") == "disable" for y in C.walk(C.strip(x)["c"]))
+                       and any(y.get("k") == "continue" for y in C.walk(C.strip(x)["t"]))), None)
+        if idx_if is None:
+            continue
+        inner = C.bound_inside(n)
+        offenders = []
+        for st in items[:idx_if]:
+            for r, path, kind, node in C.mutations(st):
+                if r is None or r.get("id") in inner:
+                    continue
+                if path[:1] == ["errors"] and (kind in ("mcall:set_subitem", "mcall:set_item") or kind == "&mut"):
+                    continue  # error context, and the store handed to the attribute evaluator
+                offenders.append("%s%s %s" % (r.get("n"), "".join("." + p for p in path), kind))
+        ck.expect(not offenders, "R7", "lower_all_methods/nothing-before-disable", "only attribute evaluation precedes the disable test",
+                  "state is changed for a method before its `disable` test (%s): a method disabled for this backend still influences the output "
+                  "(e.g. occupies the single-constructor slot or raises errors)" % sorted(set(offenders)), C.loc(lam, n.get("ln")))
